@@ -181,7 +181,8 @@ CheckGeo(m, e) ==
      ELSE IF e.p THEN "no_panic"
      ELSE IF ~IsRot(e.R) THEN "harness_bad_orientation"
      ELSE IF ~e.fin THEN "output_finite"
-     ELSE IF ~e.flat THEN "harness_not_steady"
+     \* (positions were set with instantaneous tweens two callbacks ago: the level depends on positions only, so it is steady)
+     ELSE IF ~e.flat THEN "level_steady_once_positions_are"
      ELSE IF c.att /\ beyond /\ ~e.z THEN "zero_at_or_beyond_max_distance"
      ELSE IF e.gl > ONE + tol \/ e.gr > ONE + tol THEN "gain_at_most_one"
      ELSE IF e.gl < 0 \/ e.gr < 0 THEN "ear_gain_at_least_one_minus_strength"
